@@ -291,6 +291,15 @@ pub fn leak_probe(s: &Session) -> Result<(), (String, String)> {
     } else if live2 != live0 {
         return Err(("C20/failed-start-leak".into(), format!("{live0} bytes live before a failing maybenot_start, {live2} after it")));
     }
+    // a null output pointer with otherwise valid arguments must not leave anything allocated
+    let rc = unsafe { maybenot_start(good.as_ptr(), 0.0, 0.0, std::ptr::null_mut()) } as u32;
+    let live_null = alloc_track::live();
+    if rc == 0 || live_null != live0 {
+        return Err((
+            "C20/failed-start-leak".into(),
+            format!("maybenot_start with a null output pointer returned {rc}; {live0} bytes live before it, {live_null} after it"),
+        ));
+    }
     let rc = unsafe { maybenot_start(good.as_ptr(), f64::NAN, 0.0, &mut out) } as u32;
     let live3 = alloc_track::live();
     if rc == 0 {
